@@ -25,16 +25,52 @@ PROPS["ST"] = {
     ],
 }
 
+def _c12():
+    H = []
+    def add(name, **kw):
+        kw.setdefault("timeout", 900)
+        H.append(dict(name="c12::" + name, **kw))
+    add("c12_invperm_n4", unit="qdldl::_invperm", inst="usize", bounds="all [usize;4]", oracle="Ok <=> permutation of 0..n; result is the inverse", timeout=300)
+    add("c12_invperm_n5", tier="thorough", unit="qdldl::_invperm", inst="usize", bounds="all [usize;5]", oracle="same")
+    add("c12_perm_roundtrip_n5", unit="qdldl::permute / ipermute (get_unchecked)", inst="i32", bounds="all valid permutations of 5, all i32 data", oracle="permute gathers b[p[i]]; ipermute(permute(b)) == b; memory safe")
+    for n in ("c12_structure_3x3_nnz4", "c12_structure_3x3_nnz3", "c12_structure_3x2"):
+        add(n, unit="qdldl::check_structure, CscMatrix::is_triu/is_square", inst="f64 (structure only)", bounds="symbolic canonical pattern " + n[14:],
+            oracle="IncompatibleDimension <=> non-square; NotUpperTriangular <=> entry below diagonal; EmptyColumn <=> empty column; else Ok", **({"rot": True} if n.endswith("nnz3") else {}))
+    add("c12_permute_map_n3_nnz4", unit="qdldl::permute_symmetric / _permute_symmetric_inner", inst="GF(13) values", bounds="n=3, nnz=4 symbolic triu pattern, all valid iperm",
+        oracle="AtoPAPt injective; entry k lands at (min,max)(iperm[r],iperm[c]) carrying its value => P == P A P' (upper)")
+    add("c12_permute_map_n3_nnz5", tier="thorough", unit="qdldl::permute_symmetric", inst="GF(13)", bounds="n=3, nnz=5", oracle="same")
+    add("c12_permute_map_n4_nnz6", tier="thorough", unit="qdldl::permute_symmetric", inst="GF(13)", bounds="n=4, nnz=6", oracle="same", timeout=2400, mem_gb=24)
+    ldl_or = "Ok <=> all leading principal minors != 0; then L D L' == A entrywise, Dinv*D == 1, D_k = m_k/m_(k-1), L pattern == reference fill, Lp = cumsum(Lnz), rows in range/no duplicates; else Err(ZeroPivot)"
+    for k in range(8):
+        add("c12_ldl3_p%d" % k, unit="qdldl::_etree + _factor_inner (numeric, unchecked indexing)", inst="GF(13), all values", bounds="n=3, off-diagonal pattern mask %d (all 8 enumerated), full diagonal" % k,
+            oracle=ldl_or, **({} if k in (7, 5, 2) else {"rot": True}))
+    add("c12_ldl3_p7_nodiag1", unit="qdldl::_etree + _factor_inner", inst="GF(13)", bounds="n=3 dense off-diagonals, missing diagonal entry (1,1)", oracle=ldl_or, rot=True)
+    add("c12_ldl3_p5_nodiag2", unit="qdldl::_etree + _factor_inner", inst="GF(13)", bounds="n=3 mask 5, missing diagonal entry (2,2)", oracle=ldl_or, rot=True)
+    for k in (63, 11, 37, 56, 25, 42):
+        add("c12_ldl4_p%d" % k, tier="thorough", unit="qdldl::_etree + _factor_inner", inst="GF(13)", bounds="n=4, off-diagonal mask %d, full diagonal" % k, oracle=ldl_or, timeout=3600, mem_gb=24)
+    add("c12_refactor3_dense", unit="qdldl::_factor_inner twice on one workspace (what QDLDLFactorisation::refactor does)", inst="GF(13)", bounds="n=3 dense; first values arbitrary (may stop at a zero pivot)",
+        oracle="L, D, Dinv, verdict of the refactorisation == those of a fresh factorisation of the new values")
+    add("c12_refactor3_arrow", tier="thorough", unit="qdldl::_factor_inner twice", inst="GF(13)", bounds="n=3 arrow pattern", oracle="same")
+    sol_or = "(L+I) D (L+I)' x == b for all L values, nonzero D, b; safe and unchecked substitutions agree"
+    add("c12_solve3_dense", unit="qdldl::_solve (_lsolve_unsafe, _dltsolve_unsafe), _lsolve_safe, _ltsolve_safe, _ltsolve_unsafe", inst="GF(13)", bounds="n=3 dense L", oracle=sol_or)
+    add("c12_solve3_sparse", unit="qdldl::_solve", inst="GF(13)", bounds="n=3 L mask 5", oracle=sol_or, rot=True)
+    add("c12_solve4_dense", tier="thorough", unit="qdldl::_solve", inst="GF(13)", bounds="n=4 dense L", oracle=sol_or, timeout=2400)
+    add("c12_solve4_sparse", tier="thorough", unit="qdldl::_solve", inst="GF(13)", bounds="n=4 L mask 0b101001", oracle=sol_or, timeout=2400)
+    reg_or = "pivot replaced by delta*sign <=> regularisation on and D*sign < eps; count matches; positive inertia == #{D>0}; Err(ZeroPivot) <=> a pivot == 0"
+    add("c12_regularize_signs_ppm", nofloat=True, unit="qdldl::_factor_inner (regularisation / inertia logic)", inst="f64, every bit pattern", bounds="n=3 diagonal, signs (+,+,-), any eps/delta, enable on/off", oracle=reg_or)
+    add("c12_regularize_signs_mpm", nofloat=True, tier="thorough", unit="qdldl::_factor_inner", inst="f64 all bit patterns", bounds="n=3 diagonal, signs (-,+,-)", oracle=reg_or)
+    return H
+
+
 PROPS["C12"] = {
     "feature": "c12",
-    "bounds_note": "n<=4 (n<=5 for permutation utilities); sparsity patterns enumerated, values/permutations/signs symbolic",
-    "outside": "backward stability / floating-point accuracy; AMD ordering; matrices with n>4",
-    "assumptions": [],
-    "harnesses": [
-        dict(name="c12::c12_invperm_n4", unit="qdldl::_invperm", inst="usize", bounds="all [usize;4]",
-             oracle="Ok <=> permutation of 0..n; result is the inverse", timeout=300),
-    ],
+    "bounds_note": "n<=3 quick / n<=4 thorough (n<=5 for permutation utilities); sparsity patterns enumerated (all 8 for n=3), values/permutations symbolic; GF(13) for algebra, f64 for regularisation logic",
+    "outside": "backward stability / floating-point accuracy; AMD ordering; n>4; regularisation combined with off-diagonal fill (products of symbolic f64)",
+    "assumptions": ["GF(13) identities transfer to the reals as polynomial identities (degree < 13 per variable); nothing about rounding",
+                    "positive_inertia in GF(p) counts nonzero representatives (order is meaningless in the field); the real-order logic is decided in the f64 regularize harnesses"],
+    "harnesses": _c12(),
 }
+
 
 def _c09():
     hs = []
@@ -131,4 +167,276 @@ PROPS["C03"] = {
     "outside": "agreement of the reported residual figures with an independent recomputation from the returned point (floating-point norms); chordal decomposition",
     "assumptions": [],
     "harnesses": _pick(["c03_almost", "c03_rollback", "c03_solution_post_process"]),
+}
+
+
+def _c16():
+    H = []
+    def add(name, **kw):
+        kw.setdefault("timeout", 900)
+        H.append(dict(name="c16::" + name, **kw))
+    fmt_or = "check_format().is_ok() <=> reference canonical predicate (lengths consistent, colptr[0]==0, colptr monotone, colptr[n]==nnz, rows strictly increasing per column, rows < m)"
+    add("c16_format_3x3_nnz3", unit="CscMatrix::check_format / check_dimensions", inst="i32", bounds="3x3, 3 stored entries, arbitrary colptr/rowval contents", oracle=fmt_or)
+    add("c16_format_2x3_nnz4", unit="CscMatrix::check_format", inst="i32", bounds="2x3, 4 stored entries", oracle=fmt_or, rot=True)
+    add("c16_format_3x2_nnz2", unit="CscMatrix::check_format", inst="i32", bounds="3x2, 2 stored entries", oracle=fmt_or, rot=True)
+    add("c16_format_lengths", unit="CscMatrix::check_format", inst="i32", bounds="n<=3, colptr length <=3, nzval shorter than rowval", oracle="length mismatches rejected")
+    q_or = "index_to_coord(k) = true coordinate of entry k; get_entry = stored value / None iff not structural; is_triu <=> nothing below diagonal; count_diagonal; findnz"
+    add("c16_queries_3x3_nnz4", unit="CscMatrix::index_to_coord/get_entry/is_triu/count_diagonal_entries/findnz/nnz", inst="i32", bounds="3x3 nnz=4 symbolic canonical pattern", oracle=q_or)
+    add("c16_queries_2x3_nnz3", unit="same", inst="i32", bounds="2x3 nnz=3", oracle=q_or, rot=True)
+    add("c16_gemv_3x2_nnz3", unit="MatrixVectorMultiply::gemv for CscMatrix and Adjoint (_csc_axpby_N/_T)", inst="GF(13)", bounds="3x2 nnz=3 symbolic pattern, all a,b,x,y", oracle="y = a*A*x + b*y and y = a*A'*x + b*y (dense reference), incl. a,b in {0,1,-1} fast paths")
+    add("c16_gemv_2x3_nnz4", unit="same", inst="GF(13)", bounds="2x3 nnz=4", oracle="same", tier="thorough")
+    add("c16_symv_2x2_nnz3", unit="SymMatrixVectorMultiply::symv (_csc_symv_unsafe, unchecked indexing), MatrixMath::quad_form", inst="GF(13)", bounds="2x2 triu nnz=3", oracle="y = a*sym(A)*x + b*y; quad_form = y' sym(A) x; memory safe")
+    add("c16_symv_3x3_nnz4", unit="same", inst="GF(13)", bounds="3x3 triu nnz=4 symbolic pattern", oracle="same")
+    add("c16_scalings_3x2_nnz3", unit="MatrixMathMut::lscale/rscale/lrscale/scale/negate, MatrixMath::col_sums/row_sums", inst="GF(13)", bounds="3x2 nnz=3 symbolic pattern", oracle="entrywise dense definition; pattern unchanged")
+    add("c16_scalings_2x3_nnz4", unit="same", inst="GF(13)", bounds="2x3 nnz=4", oracle="same", tier="thorough")
+    add("c16_norms_3x3_nnz4", nofloat=True, unit="MatrixMath::col_norms/col_norms_no_reset/col_norms_sym/row_norms", inst="f64, every non-NaN value", bounds="3x3 nnz=4 symbolic pattern", oracle="max |a_ij| per column / row / symmetric column; no_reset accumulates")
+    add("c16_norms_2x3_nnz3", nofloat=True, unit="same", inst="f64", bounds="2x3 nnz=3", oracle="same", rot=True)
+    add("c16_transpose_3x2_nnz3", unit="From<Adjoint<CscMatrix>> (colcount_block(T), colcount_to_colptr, fill_block, backshift_colptrs)", inst="i32", bounds="3x2 nnz=3 symbolic pattern", oracle="canonical; B[j][i] == A[i][j]")
+    add("c16_transpose_2x3_nnz4", unit="same", inst="i32", bounds="2x3 nnz=4", oracle="same", rot=True)
+    add("c16_findnz_3x2", unit="CscMatrix::findnz", inst="i32", bounds="4 enumerated 3x2 patterns, symbolic values", oracle="triplets list every stored entry in storage order")
+    add("c16_dropzeros_3x2_nnz4", unit="CscMatrix::dropzeros", inst="i32", bounds="3x2 nnz=4 symbolic pattern/values", oracle="canonical; no stored zero; dense meaning kept")
+    add("c16_to_triu_2x2_all", unit="CscMatrix::to_triu / is_triu", inst="i32", bounds="all 16 patterns of a 2x2 matrix, symbolic values", oracle="canonical triu; upper entries kept, lower removed; identity on triu input", timeout=1500)
+    add("c16_to_triu_3x3_some", unit="same", inst="i32", bounds="6 representative 3x3 patterns", oracle="same", timeout=1500)
+    add("c16_select_rows_4x2", unit="CscMatrix::select_rows", inst="i32", bounds="4x2 pattern 0b10110110, all 16 row masks, symbolic values", oracle="canonical; kept rows in order", timeout=1500)
+    add("c16_select_rows_3x3", unit="same", inst="i32", bounds="3x3 pattern, all 8 row masks", oracle="same", tier="thorough", timeout=1500)
+    add("c16_triplets_2x2_k3", unit="CscMatrix::new_from_triplets (sortperm_by, permute, colcount_to_colptr)", inst="i32", bounds="2x2, 3 triplets, arbitrary coordinates (unsorted, duplicated)", oracle="canonical; dense = sum of triplets; one entry per distinct coordinate", timeout=1500)
+    add("c16_triplets_3x2_k4", unit="same", inst="i32", bounds="3x2, 4 triplets", oracle="same", tier="thorough", timeout=3000, mem_gb=24)
+    add("c16_canonicalize_22", unit="CscMatrix::canonicalize (check_dimensions, sort_indices, deduplicate)", inst="i32", bounds="3x2, column counts (2,2), arbitrary row indices", oracle="canonical; dense meaning kept; idempotent", timeout=1500)
+    add("c16_canonicalize_30", unit="same", inst="i32", bounds="3x2, column counts (3,0)", oracle="same", rot=True, timeout=1500)
+    add("c16_from_rows_2x2", unit="From<&[[T;N];M]> for CscMatrix", inst="i32", bounds="2x2 all values in [-2,2]", oracle="canonical, no stored zero, dense meaning")
+    add("c16_set_entry_2x3", unit="CscMatrix::set_entry / get_entry (colptr_to_colcount, colcount_to_colptr)", inst="i32", bounds="2x3 pattern with an empty middle... all 6 coordinates, symbolic nonzero value and zero", oracle="canonical kept; only that coordinate changes; zero never allocates", timeout=1500)
+    add("c16_set_entry_3x2_emptycol", unit="same", inst="i32", bounds="3x2 pattern with empty last column", oracle="same", rot=True, timeout=1500)
+    add("c16_concat_2x2", unit="BlockConcatenate::hcat/vcat/blockdiag/hvcat", inst="GF(13)", bounds="two 2x2 blocks, nnz 2 and 3, symbolic patterns", oracle="canonical; dense block layout", timeout=1500)
+    add("c16_concat_dim_errors", unit="hvcat_dim_check", inst="GF(13)", bounds="2x2 vs 3x2 vs 2x3", oracle="dimension mismatch <=> Err")
+    return H
+
+
+PROPS["C16"] = {
+    "feature": "c16",
+    "bounds_note": "shapes up to 3x3 / 4x2, 2-4 stored entries; symbolic canonical patterns for in-place/read-only operations; enumerated patterns with symbolic values where the result is allocated with a data-dependent size",
+    "outside": "larger shapes; floating-point rounding of products/sums (numeric kernels are decided over GF(13): the identity of the computed polynomial, not its rounding); hvcat with more than 2 blocks",
+    "assumptions": ["norm harnesses exclude NaN entries"],
+    "harnesses": _c16(),
+}
+
+
+def _mk(mod, items):
+    H = []
+    for (n, kw) in items:
+        kw = dict(kw)
+        kw.setdefault("timeout", 900)
+        H.append(dict(name=mod + "::" + n, **kw))
+    return H
+
+PROPS["C17"] = {
+    "feature": "c17",
+    "bounds_note": "union-find: 8 elements / 7 unions (smallest size with a depth-3 tree) and 5/6; Kruskal: 4 cliques, 4-5 weighted edges, symbolic pattern and weights; connect_graph: all 8 lower patterns n=3",
+    "outside": "pothen_sun supernodes, post_order, find_separators, all three merge strategies, reorder_snode_consecutively, running-intersection / coverage of the clique tree: all IndexSet/HashMap based, which Kani cannot execute (hashbrown insertion does not terminate symbolically) - NOT decided here",
+    "assumptions": [],
+    "harnesses": _mk("c17", [
+        ("c17_dsu_n8_u7", dict(unit="DisjointSetUnion::{new,union,in_same_set,root}", inst="usize", bounds="8 elements, any 7 unions, any query", oracle="in_same_set(x,y) <=> x,y connected by the unions (reference component labels); root returns a fixed point", timeout=1800, mem_gb=20)),
+        ("c17_dsu_n5_u6", dict(unit="same", inst="usize", bounds="5 elements, any 6 unions", oracle="same")),
+        ("c17_kruskal_n4_a", dict(unit="clique_graph::kruskal (findnz, sortperm_rev, permute, DisjointSetUnion)", inst="isize weights", bounds="4 cliques; edge sets {K4, 4-cycle, path}; symbolic weights 0..5", oracle="edges marked -1 form an acyclic spanning forest connecting exactly the graph's components; others untouched", timeout=1800, mem_gb=20)),
+        ("c17_kruskal_n4_b", dict(tier="thorough", unit="same", inst="isize", bounds="4 cliques; edge sets {star, triangle+isolated, two disjoint edges, single edge}", oracle="same", timeout=3000, mem_gb=24)),
+        ("c17_sparsity_mask", dict(unit="chordal_info::find_aggregate_sparsity_mask", inst="f64", bounds="A 4x2 nnz=3 symbolic, b in {-1,0,1}^4", oracle="row active <=> structural entry in A or nonzero b")),
+        ("c17_connect_graph_n3", dict(unit="chordal_info::connect_graph (CscMatrix::set_entry)", inst="f64", bounds="all 8 strictly-lower patterns of a 3x3 L", oracle="afterwards every column but the last has an entry below the diagonal; only additions; canonical", timeout=1500)),
+    ]),
+}
+PROPS["C18"] = {
+    "feature": "c18",
+    "bounds_note": "index maps: all indices < 2^32; clique lists of length 3-4 with vertices < 8-12; H 3x3 with 4 entries",
+    "outside": "find_compact_A_b_and_cones, decomp_reverse_compact, psd_complete (HashMap / LAPACK); end-to-end equivalence of decomposed and original solves - NOT decided here",
+    "assumptions": ["CBMC's IEEE-754 sqrt model (isqrt goes through f64::sqrt)"],
+    "harnesses": _mk("c18", [
+        ("c18_tri_index_roundtrip", dict(nofloat=True, unit="scalarmath::upper_triangular_index_to_coord / coord_to_upper_triangular_index / isqrt", inst="usize", bounds="all idx < 2^32", oracle="mutually inverse; row<=col; idx = c(c+1)/2 + r", timeout=1800)),
+        ("c18_tri_numbers", dict(unit="scalarmath::triangular_number / triangular_index", inst="usize", bounds="k < 2^31", oracle="k(k+1)/2 and T(k+1)-1")),
+        ("c18_subblock_map", dict(unit="augment_standard::add_subblock_map", inst="usize", bounds="clique of 3 vertices < 8, row_start < 100", oracle="appends start + svec(v_i,v_j) for i<=j in packed order")),
+        ("c18_parent_block_indices", dict(unit="augment_compact::parent_block_indices", inst="usize", bounds="parent clique of 4 vertices < 10", oracle="svec index of (position of i, position of j)")),
+        ("c18_rows_subset", dict(unit="augment_compact::get_rows_subset", inst="usize", bounds="4 sorted rows < 12, any range in 0..12", oracle="range of positions whose row lies in the range; None only if empty")),
+        ("c18_alternating_and_extra_columns", dict(nofloat=True, unit="augment_compact::alternating_sequence / extra_columns", inst="f64/usize", bounds="length 8, n_start <= 8", oracle="+1 ... then (+1,-1) pairs; pairs share consecutive new column numbers")),
+        ("c18_overlaps_in_rows", dict(unit="reverse_standard::number_of_overlaps_in_rows (row_sums, position_all)", inst="f64", bounds="H 3x3 0/1 with 4 entries, symbolic pattern", oracle="rows with >1 entries, in order, with their counts")),
+    ]),
+}
+
+_LOOP_UNIT = ("core::solver::Solver::solve (REAL generic main loop + IPSolverInternals: default_start, get_step_length, backtrack_step_to_barrier, "
+              "strategy_checkpoint_{insufficient_progress,numerical_error,small_step,is_scaling_success}) with the REAL DefaultInfo::{reset,check_termination,post_process,"
+              "save_scalars,save_prev_iterate,reset_to_prev_iterate,get_status,set_status}; all other components are stubs returning arbitrary values")
+_LOOP_OR = ("returns without panic/unreachable; status != Unsolved; iterations <= max_iter; passes <= max_iter+2; every check_termination entered with status Unsolved; "
+            "after solve_time > time_limit is observed at a check at most one further pass, and only through the scaling-strategy switch")
+def _c04():
+    H = []
+    def loop(n, b, **kw):
+        H.append(dict(name="c04::" + n, nofloat=True, stubs=True, unit=_LOOP_UNIT, inst="f64 (every bit pattern for all numeric results)", bounds=b, oracle=_LOOP_OR, timeout=1500, mem_gb=20, **kw))
+    loop("c04_loop_sym_mi2", "max_iter<=2, symmetric cones, any time_limit/tolerances/step thresholds, any prior status")
+    loop("c04_loop_asym_pd_mi2", "max_iter<=2, nonsymmetric cones with primal-dual scaling (strategy switch possible); barrier search cut to 3 evaluations")
+    loop("c04_loop_asym_dual_mi1", "max_iter<=1, nonsymmetric cones, dual scaling only")
+    loop("c04_loop_sym_mi4", "max_iter<=4, symmetric cones", tier="thorough", )
+    loop("c04_loop_asym_pd_mi3", "max_iter<=3, nonsymmetric, primal-dual scaling", tier="thorough")
+    H.append(dict(name="verdict::c04_verdict_limits", **_H_VERDICT["c04_verdict_limits"]))
+    H.append(dict(name="c05::c04_collapse", unit="SupportedConeT::new_collapsed", inst="f64 cone parameters", bounds="4 cones of symbolic kind {Zero,NN,SOC,Exp,Pow} and symbolic dimension 0..2", timeout=2400, mem_gb=24,
+                  oracle="no panic; no empty cone / SOC(1) / adjacent NN pair in the output; every row keeps its cone kind and order (collapsed rows become nonnegative rows)"))
+    H.append(dict(name="c05::c04_dims_inconsistent_panics", should_panic=True, no_cover_ok=True, unit="default::solver::_check_dimensions", inst="usize", bounds="all dimensions <= 3, 2 symbolic cones", timeout=900,
+                  oracle="every inconsistent combination panics (the point after the check is unreachable)"))
+    H.append(dict(name="c05::c04_dims_consistent_accepted", unit="default::solver::_check_dimensions", inst="usize", bounds="all dimensions <= 3", timeout=900, oracle="consistent dimensions never panic"))
+    return H
+
+PROPS["C04"] = {
+    "feature": "c04",
+    "bounds_note": "main loop: max_iter <= 2 (quick) / <= 4 (thorough), every f64 value for every numeric result of every component; verdict logic: all f64",
+    "outside": "panics or hangs *inside* the numeric components (KKT solve, AMD, faer, cone kernels) for extreme data; wall-clock behaviour; max_iter > 4 (the loop body is uniform in the iteration index: argued, not proved); dimension checks and cone collapsing are separate harnesses",
+    "assumptions": ["stub components return arbitrary values of their result type (bool / f64 incl. NaN,inf)", "Timers methods are stubbed with empty bodies; the clock is an arbitrary non-decreasing reading assigned in the stub Info::update",
+                    "RandomState::new stubbed with fixed keys so that Timers::default() can be constructed", "backtrack_step_to_barrier's 50-step loop is cut to 3 barrier evaluations"],
+    "harnesses": _c04(),
+}
+
+
+_MAPS_UNIT = "kkt_assembly::assemble_kkt_matrix (LDLDataMap::new, _kkt_assemble_colcounts, _kkt_assemble_fill, csc colcount_*/fill_* utilities, SOC sparse expansion fill); CompositeCone hook constructor"
+_MAPS_OR = ("K canonical of dimension n+m+p, all entries in the requested triangle; map.P / map.A entries at the recorded (transposed for tril) positions with the user's values; diag_full/diagP point at every diagonal "
+            "position (structural zeros where P has none); Hsblocks hit the diagonal (diagonal cones) or the packed triangle in order (dense cones); u,v,D of SOC expansions hit the extra columns/rows; all index sets disjoint and covering K")
+PROPS["C11"] = {
+    "native_tests": ["tv_composite"],
+    "feature": "c11",
+    "bounds_note": "n=2; P patterns enumerated (empty, diagonal, missing diagonals, full); cone layouts enumerated ([Zero1,NN2], [NN1,SOC3], [SOC5] sparse, [Exp], [NN1,SOC5,Zero1]); A symbolic canonical pattern with 2-3 entries; symbolic values; both triangles",
+    "outside": "exp/pow Hs numerics; GenPow sparse expansion positions; the regularise/refactor/restore cycle of DirectLDLKKTSolver::update (needs a live LDL engine: AMD) ; sign vector",
+    "assumptions": ["CompositeCone built by the hook constructor new_without_type_counts (identical to CompositeCone::new except the printing-only HashMap); RandomState::new stubbed with fixed keys"],
+    "harnesses": _mk("c11", [
+        ("c11_maps_znn_p3_triu", dict(stubs=True, unit=_MAPS_UNIT, inst="f64 small ints (values only copied)", bounds="cones [Zero1,NN2], P full triu, A 3x2 nnz=3, triu", oracle=_MAPS_OR, timeout=1500, mem_gb=20)),
+        ("c11_maps_znn_p2_tril", dict(stubs=True, unit=_MAPS_UNIT, inst="f64", bounds="cones [Zero1,NN2], P missing (1,1), tril", oracle=_MAPS_OR, timeout=1500, mem_gb=20)),
+        ("c11_maps_znn_p0_triu", dict(stubs=True, rot=True, unit=_MAPS_UNIT, inst="f64", bounds="cones [Zero1,NN2], empty P, triu", oracle=_MAPS_OR, timeout=1500, mem_gb=20)),
+        ("c11_maps_znn_p4_tril", dict(stubs=True, rot=True, unit=_MAPS_UNIT, inst="f64", bounds="cones [Zero1,NN2], P only (0,1), tril", oracle=_MAPS_OR, timeout=1500, mem_gb=20)),
+        ("c11_maps_nnsoc3_p1_triu", dict(stubs=True, unit=_MAPS_UNIT, inst="f64", bounds="cones [NN1,SOC3] (dense 3x3 block), diagonal P, triu", oracle=_MAPS_OR, timeout=1800, mem_gb=20)),
+        ("c11_maps_nnsoc3_p5_tril", dict(stubs=True, rot=True, unit=_MAPS_UNIT, inst="f64", bounds="cones [NN1,SOC3], P only (1,1), tril", oracle=_MAPS_OR, timeout=1800, mem_gb=20)),
+        ("c11_maps_soc5_p3_triu", dict(stubs=True, unit=_MAPS_UNIT, inst="f64", bounds="cones [SOC5] (sparse expansion), full P, triu", oracle=_MAPS_OR, timeout=2400, mem_gb=24)),
+        ("c11_maps_soc5_p2_tril", dict(stubs=True, tier="thorough", unit=_MAPS_UNIT, inst="f64", bounds="cones [SOC5], P missing diag, tril", oracle=_MAPS_OR, timeout=2400, mem_gb=24)),
+        ("c11_maps_exp_p4_triu", dict(stubs=True, rot=True, unit=_MAPS_UNIT, inst="f64", bounds="cones [Exp] dense block, P only (0,1), triu", oracle=_MAPS_OR, timeout=1800, mem_gb=20)),
+        ("c11_maps_nnsoc5z_p1_tril", dict(stubs=True, tier="thorough", unit=_MAPS_UNIT, inst="f64", bounds="cones [NN1,SOC5,Zero1], diagonal P, tril", oracle=_MAPS_OR, timeout=3000, mem_gb=28)),
+    ]) + [dict(name="c13::c13_soc3_hs_block", unit="SecondOrderCone::get_Hs vs mul_Hs", inst="GF(17)", bounds="dim 3, all normalised w, eta, x", oracle="unpacked KKT block == operator applied when recovering the slack step", timeout=1200),
+          dict(name="c13::c13_soc5_update_scaling_sparse", unit="SecondOrderCone::update_scaling / sparse_data / get_Hs / mul_Hs", inst="GF(13)", bounds="dim 5", oracle="eta^2 (D + uu' - vv') == mul_Hs", timeout=2400, mem_gb=20)],
+}
+PROPS["C13"] = {
+    "feature": "c13",
+    "bounds_note": "SOC dimension 3 (dense) and 5 (sparse expansion), NN dimension 2; GF(13) / GF(17) / GF(31): all field values",
+    "outside": "floating-point accuracy near the cone boundary; PSD cone (LAPACK); W z = lambda is decided only up to the common sign of the nested square roots",
+    "assumptions": ["sqrt in GF(p) is an arbitrary root; paths whose sqrt argument is not a square are cut (each harness has a cover witness behind the calls)"],
+    "harnesses": _mk("c13", [
+        ("c13_soc3_w_winv", dict(unit="SecondOrderCone::mul_W / mul_Winv (_soc_mul_W_inner, _soc_mul_Winv_inner)", inst="GF(13)", bounds="dim 3, all normalised w (w0^2-|w1|^2=1), eta!=0", oracle="Winv W = W Winv = I; W symmetric; alpha/beta form", timeout=1200)),
+        ("c13_soc5_w_winv", dict(tier="thorough", unit="same", inst="GF(13)", bounds="dim 5", oracle="same", timeout=2400)),
+        ("c13_soc3_hs_dense", dict(unit="SecondOrderCone::mul_Hs", inst="GF(13)", bounds="dim 3", oracle="mul_Hs == W'W", timeout=1200)),
+        ("c13_soc3_hs_block", dict(unit="SecondOrderCone::get_Hs", inst="GF(17)", bounds="dim 3", oracle="unpacked packed-triu block == mul_Hs", timeout=1200)),
+        ("c13_soc3_update_scaling", dict(unit="SecondOrderCone::update_scaling", inst="GF(13)", bounds="dim 3, all s,z with square nonzero residuals", oracle="w normalised; (W'W) z = s; W z = W^-T s = +-lambda", timeout=2400, mem_gb=20)),
+        ("c13_soc5_update_scaling_sparse", dict(unit="SecondOrderCone::update_scaling incl. sparse_data (u,v,d)", inst="GF(13)", bounds="dim 5", oracle="as above + eta^2(D+uu'-vv') == mul_Hs; D block = eta^2 diag(d,1,..)", timeout=3000, mem_gb=24)),
+        ("c13_soc5_update_scaling_sparse_p31", dict(tier="thorough", unit="same", inst="GF(31)", bounds="dim 5", oracle="same", timeout=3600, mem_gb=28)),
+        ("c13_soc3_jordan", dict(unit="SecondOrderCone::circ_op/inv_circ_op/affine_ds/combined_ds_shift (_combined_ds_shift_symmetric)", inst="GF(13)", bounds="dim 3", oracle="arrow product; inverse; lambda o lambda; W^-1 ds o W dz - sigma mu e", timeout=1800)),
+        ("c13_nn_scaling", dict(unit="NonnegativeCone::update_scaling/get_Hs/mul_Hs/mul_W/mul_Winv/affine_ds/Ds_from_Dz_offset", inst="GF(13)", bounds="dim 2", oracle="Hs z = s; lambda^2 = s z; Winv W = I; offset = ds/z", timeout=1200)),
+    ]),
+}
+_c15 = [
+    ("c15_soc3_range", dict(nofloat=True, unit="SecondOrderCone::step_length -> _step_length_soc_component, _soc_residual", inst="f64 every bit pattern", bounds="dim 3, alpha_max in (0,1]", oracle="0 <= alpha <= alpha_max for z and s; panic unreachable", timeout=1800, mem_gb=20)),
+    ("c15_soc3_cases", dict(nofloat=True, unit="same", inst="f64 finite", bounds="dim 3", oracle="zero direction => alpha_max; alpha <= -x0/y0 when the scalar part decreases", timeout=1800, mem_gb=20)),
+    ("c15_nn2_exact", dict(nofloat=True, unit="NonnegativeCone::step_length", inst="f64 every bit pattern", bounds="dim 2, any alpha_max", oracle="alpha == min(alpha_max, min_{d<0} -z/d) bit for bit; <= alpha_max; >= 0 for interior points", timeout=1200)),
+    ("c15_nn3_exact", dict(nofloat=True, tier="thorough", unit="same", inst="f64", bounds="dim 3", oracle="same", timeout=2400)),
+    ("c15_zero_cone", dict(nofloat=True, unit="ZeroCone::step_length", inst="f64", bounds="dim 2", oracle="(alpha_max, alpha_max)")),
+    ("c15_backtrack", dict(nofloat=True, unit="nonsymmetric_common::backtrack_search", inst="f64", bounds="arbitrary membership oracle (6 arbitrary answers), step 0.5, alpha_min = alpha_init/20", oracle="terminates; returns 0 or alpha_init*step^k; returned alpha accepted, all larger candidates rejected", timeout=1200)),
+    ("c15_composite_nn_soc", dict(nofloat=True, stubs=True, unit="CompositeCone::step_length", inst="f64 every bit pattern", bounds="[NN2, SOC3]", oracle="common step, in [0,alpha_max], not longer than the NN part allows", timeout=2400, mem_gb=20)),
+    ("c15_shift_nn", dict(nofloat=True, stubs=True, unit="DefaultVariables::symmetric_initialization -> _shift_to_cone_interior, CompositeCone::margins/scaled_unit_shift", inst="f64, |v| <= 1e100", bounds="[NN2, Zero1]", oracle="afterwards s,z strictly positive in the NN cone; zero-cone slack 0; tau=kappa=1", timeout=1800)),
+]
+PROPS["C15"] = {
+    "native_tests": ["tv_composite"],
+    "feature": "c15",
+    "bounds_note": "SOC dim 3, NN dim 2-3, composite [NN2,SOC3]; every f64 bit pattern unless stated",
+    "outside": "numerical tightness of the SOC root; exp/pow/genpow membership predicates (transcendental); PSD eigenvalue step (LAPACK); strict interiority after an SOC shift",
+    "assumptions": [],
+    "harnesses": _mk("c15", _c15),
+}
+PROPS["C07"] = {
+    "native_tests": ["tv_composite"],
+    "feature": "c07",
+    "bounds_note": "tau/kappa step: all positive finite tau,kappa, all step data; budget: all f64 info fields",
+    "outside": "interiority of s,z after a step for SOC/exp/pow/PSD cones (real-number reasoning about roots/logs); bit-reproducibility of arithmetic (determinism of f64 operations is assumed); tau',kappa' > 0 after the step (needs reasoning about a rounded product - not finished by the SAT back end)",
+    "assumptions": ["max_iter is read only in DefaultInfo::check_termination (grep-level side condition stated in DESIGN.md)"],
+    "harnesses": _mk("c15", [
+        ("c07_alpha_range", dict(nofloat=True, stubs=True, unit="DefaultVariables::calc_step_length (empty composite cone)", inst="f64", bounds="tau,kappa > 0 finite; any d_tau,d_kappa; max_step_fraction in (0,1]", oracle="0 <= alpha <= 1; alpha == 1 for an affine step when tau,kappa do not decrease", timeout=1800)),
+        ("c07_budget_noninterference", dict(nofloat=True, unit="DefaultInfo::check_termination", inst="f64 every bit pattern", bounds="two settings differing only in max_iter, both != iterations", oracle="identical verdict and return value", timeout=900)),
+        ("c15_nn2_exact", dict(nofloat=True, unit="NonnegativeCone::step_length", inst="f64", bounds="dim 2", oracle="exact ratio test; nonnegative for interior points", timeout=1200)),
+        ("c15_soc3_range", dict(nofloat=True, unit="SecondOrderCone::step_length", inst="f64", bounds="dim 3", oracle="step in [0, alpha_max]", timeout=1800, mem_gb=20)),
+    ]),
+}
+
+PROPS["C08"] = {
+    "feature": "c08",
+    "bounds_note": "vectors of length 3, matrices 3x2 / 2x3 with 3 stored entries (symbolic canonical pattern), index lists of length 2 with arbitrary usize indices; GF(13) values",
+    "outside": "check_data_update_allowed on a live DefaultSolver and the synchronisation of the KKT copy (constructing a solver needs AMD); end-to-end agreement of the following solve. KKT value maps: see C11; QDLDL's AtoPAPt map: see C12",
+    "assumptions": [],
+    "harnesses": _mk("c08", [
+        ("c08_vector_full", dict(unit="VectorProblemDataUpdate for [T], Vec<T>, [T;0]", inst="GF(13)", bounds="len 3; lengths 2,3,4,0", oracle="right length: v = value*scale*c; wrong length: Err and untouched; empty: no-op")),
+        ("c08_vector_partial", dict(unit="VectorProblemDataUpdate for Zip<..> and (Vec<usize>,Vec<T>)", inst="GF(13)", bounds="len 3, 2 arbitrary usize indices", oracle="Err <=> an index >= len; else listed entries = value*scale[idx]*c, others untouched")),
+        ("c08_matrix_full", dict(unit="MatrixProblemDataUpdate for [T], Vec<T>, [T;0], CscMatrix<T> (check_equal_sparsity, lrscale, scale)", inst="GF(13)", bounds="3x2 nnz=3 symbolic pattern", oracle="entry k = l[row k] r[col k] c value_k; wrong length / pattern mismatch: Err and untouched; empty: no-op", timeout=1800, mem_gb=20)),
+        ("c08_matrix_partial", dict(unit="MatrixProblemDataUpdate for Zip<..>/(Vec,Vec) -> CscMatrix::index_to_coord", inst="GF(13)", bounds="2x3 nnz=3 symbolic pattern (empty columns allowed), 2 arbitrary indices", oracle="Err <=> index >= nnz; else entry scaled by its true row/column", timeout=1800, mem_gb=20)),
+        ("c08_norm_cache", dict(unit="DefaultProblemData::{new,get_normq,get_normb,clear_normq,clear_normb}", inst="f64 small ints, power-of-two scalings", bounds="n=m=2", oracle="after clear: norm of the new data in the user's scaling; before: cached", timeout=1200)),
+    ]),
+}
+
+_EQ_UNIT = "DefaultProblemData::equilibrate (kkt_col_norms, scale_data, lrscale/lscale/hadamard, clip, CompositeCone::rectify_equilibration) + DefaultProblemData::new"
+_EQ_OR = "P == c D P0 D, A == E A0 D, q == c D q0, b == E b0 with the recorded d,e,c; dinv*d == 1, einv*e == 1; E constant over non-scalar cones; patterns unchanged"
+PROPS["C10"] = {
+    "native_tests": ["tv_composite"],
+    "feature": "c10",
+    "bounds_note": "n=2, m=2..4, dense A, full-triu P, 1-2 Ruiz sweeps, arbitrary min/max scaling; GF(13) all values. f64 for 'disabled' and 'zero rows/cols'",
+    "outside": "that every cumulative factor stays within [min_scaling, max_scaling] (needs reasoning about rounded f64 products/quotients: not finished by the SAT back end); more than 2 sweeps; PSD cone; quality of the scaling",
+    "assumptions": ["GF(13): order comparisons (max, clip) compare representatives; the asserted identity does not depend on them", "CompositeCone hook constructor; RandomState stub"],
+    "harnesses": _mk("c10", [
+        ("c10_exact_nn2_1sweep", dict(stubs=True, unit=_EQ_UNIT, inst="GF(13)", bounds="cones [NN2], 1 sweep", oracle=_EQ_OR, timeout=1800, mem_gb=20)),
+        ("c10_exact_nn2_2sweeps", dict(stubs=True, unit=_EQ_UNIT, inst="GF(13)", bounds="cones [NN2], 2 sweeps", oracle=_EQ_OR, timeout=2400, mem_gb=20)),
+        ("c10_exact_nn1_soc2_1sweep", dict(stubs=True, unit=_EQ_UNIT, inst="GF(13)", bounds="cones [NN1,SOC2], 1 sweep (rectification)", oracle=_EQ_OR, timeout=2400, mem_gb=20)),
+        ("c10_exact_zero1_soc3_2sweeps", dict(stubs=True, tier="thorough", unit=_EQ_UNIT, inst="GF(13)", bounds="cones [Zero1,SOC3], 2 sweeps", oracle=_EQ_OR, timeout=3600, mem_gb=28)),
+        ("c10_disabled", dict(stubs=True, nofloat=True, unit="DefaultProblemData::equilibrate", inst="f64 every bit pattern", bounds="n=m=2", oracle="equilibrate_enable=false: P,q,A,b bit-unchanged, identity scaling", timeout=1200)),
+        ("c10_zero_rows_cols", dict(stubs=True, nofloat=True, unit="DefaultProblemData::equilibrate", inst="f64", bounds="n=m=2, empty column 1 of [P;A], empty row 1 of A, 2 sweeps", oracle="d[1] == e[1] == 1 exactly", timeout=1800, mem_gb=20)),
+        ("c10_rectify", dict(unit="rectify_equilibration of NonnegativeCone/ZeroCone/SecondOrderCone/ExponentialCone/PowerCone", inst="GF(13)", bounds="dim 3", oracle="scalar cones: delta=1,false; others: true and delta*e == mean(e) (constant)", timeout=1200)),
+    ]),
+}
+
+PROPS["C20"] = {
+    "native_tests": ["tv_composite"],
+    "feature": "c20",
+    "bounds_note": "silence: every info/settings value; routing: writes of 3, 0 and 2 arbitrary ASCII bytes",
+    "outside": "everything that formats numbers (iteration column, footer agreement, header dimensions and settings), file and stdout targets (FFI): string formatting is not executable by the model checker at a useful bound",
+    "assumptions": ["CompositeCone hook constructor; RandomState stub"],
+    "harnesses": _mk("c20", [
+        ("c20_silent", dict(stubs=True, nofloat=True, unit="DefaultInfo::{print_configuration,print_status_header,print_status,print_footer}", inst="f64 all values", bounds="any info state / status / settings, verbose=false, buffer target", oracle="Ok and zero bytes written", timeout=1500)),
+        ("c20_route", dict(unit="impl Write for PrintTarget; ConfigurablePrintTarget::{print_to_buffer,print_to_stream,print_to_sink,get_print_buffer}; Clone", inst="u8", bounds="3 writes (3,0,2 bytes), arbitrary ASCII", oracle="buffer / stream receive exactly the concatenation; sink accepts; get_print_buffer errs unless buffer; switching replaces the target", timeout=1500)),
+    ]),
+}
+
+
+PROPS["C05"] = {
+    "feature": "c05",
+    "bounds_note": "cone lists of 3-5 cones with symbolic kinds/dimensions; P: all 16 2x2 patterns and 6 3x3 patterns",
+    "outside": "every other equivalence of C05 (row/variable permutations, objective scaling, presolve/equilibration toggles, LDL backends, thread counts, concurrent solver instances, bit-for-bit repeatability) relates two end-to-end floating-point runs or concerns concurrency: not expressible as a bounded symbolic query over this code - NOT decided. Only the two normalisations that make equivalent inputs *identical internal problems* are decided here",
+    "assumptions": [],
+    "harnesses": [
+        dict(name="c05::c05_nn_split_merge", unit="SupportedConeT::new_collapsed", inst="f64 cone parameters", bounds="NN(a),filler,NN(b) between two symbolic cones vs NN(a+b); a,b <= 3", timeout=2400, mem_gb=24,
+             oracle="identical collapsed cone lists (=> identical internal problem); SOC(1) == nonnegative row"),
+        dict(name="c05::c04_collapse", unit="SupportedConeT::new_collapsed", inst="f64", bounds="4 symbolic cones", timeout=2400, mem_gb=24, oracle="row kinds/order preserved; canonical output"),
+        dict(name="c16::c16_to_triu_2x2_all", unit="CscMatrix::to_triu / is_triu (DefaultProblemData::new converts a full P with to_triu iff !is_triu)", inst="i32", bounds="all 16 patterns of a 2x2 matrix, symbolic values", timeout=1500,
+             oracle="to_triu(full) is the canonical upper triangle; a triu input is returned unchanged"),
+        dict(name="c16::c16_to_triu_3x3_some", tier="thorough", unit="same", inst="i32", bounds="6 representative 3x3 patterns", timeout=1500, oracle="same"),
+    ],
+}
+
+_JET = "first-order jets over GF(13): exact differentiation of the REAL generic code; ln / powf uninterpreted (arbitrary value, memoised per argument) with their derivative rules"
+PROPS["C14"] = {
+    "feature": "c14",
+    "bounds_note": "exponential and 3-d power cone; all field values of z, all directions, all exponents alpha not in {0,1}; one derivative direction per query",
+    "outside": "membership predicates vs. the cone / dual-cone definitions (transcendental inequalities); conjugacy of gradient_primal (Wright omega, Newton-Raphson: float iterations); primal-dual scaling matrix (depends on gradient_primal); unit_initialization constants; generalised power cone; anything about rounding",
+    "assumptions": ["uninterpreted ln/powf: the identities decided are those that follow from the derivative rules alone (which is how the code derives them)",
+                    "GF(13) identities transfer to the reals as identities of rational functions where denominators are nonzero"],
+    "harnesses": _mk("c14", [
+        ("c14_exp_grad_is_derivative_of_dual_barrier", dict(unit="ExponentialCone::barrier_dual / update_dual_grad_H", inst="Jet<GF(13)>", bounds="all z (z1,z3 != 0), symbolic direction index", oracle="d f*(z)/dz_j == grad[j]", timeout=2400, mem_gb=20)),
+        ("c14_exp_hessian_is_derivative_of_grad", dict(unit="ExponentialCone::update_dual_grad_H", inst="Jet<GF(13)>", bounds="all z, symbolic j", oracle="d grad[i]/dz_j == H[i][j] for all i", timeout=2400, mem_gb=20)),
+        ("c14_exp_higher_correction_is_third_derivative", dict(unit="ExponentialCone::higher_correction, DenseMatrixSym3::cholesky_3x3_explicit_{factor,solve}", inst="Jet<GF(13)>", bounds="all z, u, v", oracle="eta == -1/2 (d/dt H(z+tv)) u with H u = ds", timeout=3600, mem_gb=28)),
+        ("c14_pow_grad_is_derivative_of_dual_barrier", dict(unit="PowerCone::barrier_dual / update_dual_grad_H", inst="Jet<GF(13)>", bounds="all z != 0, all alpha", oracle="d f*(z)/dz_j == grad[j]", timeout=2400, mem_gb=20)),
+        ("c14_pow_hessian_is_derivative_of_grad", dict(unit="PowerCone::update_dual_grad_H", inst="Jet<GF(13)>", bounds="all z, alpha, j", oracle="d grad[i]/dz_j == H[i][j]", timeout=2400, mem_gb=20)),
+        ("c14_pow_higher_correction_is_third_derivative", dict(tier="thorough", unit="PowerCone::higher_correction", inst="Jet<GF(13)>", bounds="all z, u, v, alpha", oracle="eta == -1/2 (d/dt H(z+tv)) u", timeout=3600, mem_gb=28)),
+        ("c14_dual_scaling_is_mu_times_hessian", dict(unit="Nonsymmetric3DConeUtils::use_dual_scaling, ExponentialCone::get_Hs / mul_Hs", inst="GF(13)", bounds="all H, mu, x", oracle="Hs == mu H; get_Hs / mul_Hs expose Hs", timeout=1200)),
+    ]),
 }
